@@ -37,9 +37,9 @@ def replay_writes(lengths, end, data=None):
     return (prob is not None), prob or 'ok', 'C04/layout'
 
 
-def replay_oneshot(n):
+def replay_oneshot(n, data=None):
     from cardutil import mciipm
-    d = ref.content(n)
+    d = data if data is not None and len(data) == n else ref.content(n)
     fi, fo = io.BytesIO(d), io.BytesIO()
     mciipm.block_1014(fi, fo)
     O = fo.getvalue()
